@@ -10,6 +10,15 @@ COMMON_NOTE = ('Trusted base: z3 4.x/5.1 (python3-vt), the symx forking engine, 
                'reals), sizes beyond the stated bounds, GPU, complex dtypes. ')
 
 CHECKS = {
+ 'C07': dict(
+    text='indices.einsum / mv / mm / log_viterbi_einsum_forward and the unmodified torch_semiring_einsum package are executed on the z3-valued tensor model for every '
+         'well-typed combination of sparsity patterns inside the bound; per output cell the solver decides equality with the definitional semiring einsum of the '
+         'independently denoted dense operands (Viterbi variant: the returned pointer selects a term equal to the maximum). Right level: the interesting inputs are '
+         'value corners (0, inf, 0 x inf) and pattern/stride structure; the solver quantifies the former, the typed enumeration covers the latter.',
+    note='Bounds: 29 (quick) / 41 (thorough) signatures up to 4 letters and 3 operands, letter sizes {1,2,3} (thorough 0,4), index types of depth 1 (atomic, binary product, 2-3-ary sum), '
+         'patterns = all instances of the types with <=3 physical axes incl. shared (diagonal) axes, stride-0 and permuted storage, capped combinations per signature (seeded sample beyond the cap); '
+         'regimes: T for Viterbi/Bool and small Real cases, P+S (positive / one-inf-one-zero profiles) otherwise. Known finding F5 (Viterbi variant with +inf and -inf) is confined to its own region.',
+    technique='SMT equivalence queries over symbolic execution of the real code (z3 NRA/LRA)', design='5/C07'),
  'C08': dict(
     text='Every law is an SMT validity query over tagged symbolic carrier elements (finite, zero and infinite at once) evaluated through the real '
          'Semiring/PatternedTensor code on the z3-valued tensor model; star is decided least with a Knaster-Tarski query (fresh universally quantified y). '
